@@ -49,6 +49,7 @@ class CFG:
         self._dom = None
         self._pdom = None
         self._edom = None
+        self._has_try = None
 
     # ---------------------------------------------------------------- edge-split graph
     def _split_graph(self):
@@ -120,7 +121,9 @@ class CFG:
         return self._edom
 
     def dominates(self, a, b):
-        """a, b: block index or edge node. True if a dominates b (reflexive)."""
+        """a, b: block index or edge node. True if a dominates b (reflexive).  When plain dominance fails the
+        question is asked again on feasible paths only (mirutil.feasible_reach: the variant of Result/Option
+        temporaries is tracked, so "the spliced helper returned Err and the caller's `?` continued" is not a path)."""
         idom = self.edom
         if b not in idom or a not in idom:
             return False
@@ -130,8 +133,26 @@ class CFG:
                 return True
             p = idom[x]
             if p == x:
-                return False
+                break
             x = p
+        if not getattr(self, "_has_try", None):
+            if self._has_try is None:
+                from .callgraph import callee_is
+                self._has_try = any(blk["term"]["k"] == "call" and callee_is(blk["term"], "FromResidual>::from_residual", "from_residual")
+                                    for blk in self.body.blocks) or False
+            if not self._has_try:
+                return False
+        key = (a, b)
+        cache = self.__dict__.setdefault("_fdom", {})
+        if key not in cache:
+            from .mirutil import feasible_reach
+            if isinstance(b, tuple):
+                cache[key] = False
+            elif isinstance(a, tuple):
+                cache[key] = b not in feasible_reach(self.body, [0], avoid_edges=[a])
+            else:
+                cache[key] = b not in feasible_reach(self.body, [0], avoid_blocks=[a])
+        return cache[key]
 
     def edge(self, src, dst=None, slot=None):
         """Edge node(s) from src to dst."""
